@@ -788,6 +788,8 @@ def oracle(prog, lines, meta):
         elif l.startswith("V s") and "two-writers" in l:
             add("C02", "two-writers-on-one-queue", "two threads hold a write mapping of the same queue at once (the channel has one write cursor: both are "
                 "handed the same bytes, and the first unmap commits the other's unfinished region): " + l[:160])
+        elif l.startswith("V s") and "region-changed-while-mapped" in l:
+            add("C02", "region-changed-while-mapped", "a region a reader had mapped was modified before the reader unmapped it: " + l[:160])
         elif l.startswith("R s") and len(w) > 4 and w[2] == "sink.in" and w[3] == "mon" and w[4] == "rmap":
             s = int(w[1][1])
             if not mon_registered[s]:
